@@ -79,13 +79,25 @@ def normal_only(label: str | None) -> bool:
 class BoolFacts:
     """Immutable-ish path state: truthiness facts on simple expressions."""
 
-    __slots__ = ("truth", "null", "last_def", "alias")
+    __slots__ = ("truth", "null", "last_def", "alias", "_key")
 
     def __init__(self, truth=None, null=None, last_def=None, alias=None):
         self.truth: dict[str, bool] = truth or {}
         self.null: dict[str, bool] = null or {}  # name -> is None?
         self.last_def: dict[str, Node] = last_def or {}
         self.alias: dict[str, str] = alias or {}  # name -> name it was copied from
+        self._key = None
+
+    def key(self) -> tuple:
+        """Hashable identity; computed once - a state must not be mutated
+        after its key was taken (states are copy-on-write values)."""
+        if self._key is None:
+            self._key = (
+                frozenset((k, v) for k, v in self.truth.items() if isinstance(v, bool)),
+                frozenset(self.null.items()),
+                frozenset(self.alias.items()),
+            )
+        return self._key
 
     def copy(self) -> "BoolFacts":
         return BoolFacts(dict(self.truth), dict(self.null), dict(self.last_def), dict(self.alias))
@@ -223,6 +235,31 @@ def _classify(expr: ast.AST):
     return (None, None, False)
 
 
+def _derefs(node: Node) -> tuple:
+    """Chains ``X`` that the statement dereferences (``X.attr`` / ``X.m()``):
+    if the statement completes normally, X was not None."""
+    cached = node.extra.get("_derefs")
+    if cached is not None:
+        return cached
+    out = set()
+    if node.ast is not None:
+        todo = [node.ast]
+        while todo:
+            n = todo.pop()
+            # only unconditionally evaluated sub-expressions
+            if isinstance(n, (ast.IfExp, ast.BoolOp, ast.Lambda, ast.ListComp, ast.SetComp, ast.DictComp,
+                              ast.GeneratorExp, ast.FunctionDef, ast.AsyncFunctionDef, ast.ClassDef)):
+                continue
+            if isinstance(n, ast.Attribute):
+                d = dotted(n.value)
+                if d and d != "self" and d.startswith("self."):
+                    out.add(d)
+            todo.extend(ast.iter_child_nodes(n))
+    res = tuple(sorted(out))
+    node.extra["_derefs"] = res
+    return res
+
+
 def boolfacts_step(state: BoolFacts, node: Node, label: str | None):
     """Copy-on-write transfer: states are treated as immutable values."""
     if node.kind == "test" and label in ("T", "F") and node.ast is not None:
@@ -234,9 +271,17 @@ def boolfacts_step(state: BoolFacts, node: Node, label: str | None):
         return st
     if node.kind in ("stmt", "with"):
         a = node.ast
+        derefs = _derefs(node) if label not in ("exc", "raise") else ()
         if isinstance(a, (ast.Assign, ast.AnnAssign, ast.AugAssign, ast.withitem)):
             st = state.copy()
+            for d in derefs:
+                st.null[d] = False
             st.assign(node)
+            return st
+        if derefs and any(state.null.get(d) is not False for d in derefs):
+            st = state.copy()
+            for d in derefs:
+                st.null[d] = False
             return st
         return state
     if node.kind == "for" and isinstance(node.ast, (ast.For, ast.AsyncFor)):
